@@ -25,12 +25,30 @@
      * the final conversion of the value at HALT (Heap::get_as_cell, whose fuel is an artefact
        of the model): monotone in the fuel, correct whenever the fuel does not run out, and a
        counterexample to "heap size + 1 suffices" (Proofs/CellFuelProofs.v);
+     * R2: the machine invariant [minv] assumed by all of the above holds for the BOOTED machine
+       and for every state of a session started from it, by preservation (never by evaluating
+       [booted]): finv /\ J is kept by the compiler on ANY datum, every instruction, every
+       builtin of the generated table, the run loop (also on the error path), Vm::eval and the
+       boot sequence — C01_eval_preserves_rinv, C01_booted_minv, C01_session_minv (at the end of
+       this file; Proofs/KeepCalc.v .. KeepRun.v, BootMinv.v); load_builtins binds every
+       registered builtin name to its VBuiltin cell — C01_load_builtins_ok (Proofs/BootGenv.v);
+     * the same for fragment 4 = fragment 3 + lambda BODIES OF SEVERAL EXPRESSIONS (the non-last ones
+       compiled in non-tail position and evaluated for effect; `begin` is not a core form of the
+       compiler) — C01_fragment4_static, C01_fragment4_correct, C01_eval_fragment4
+       (Proofs/Closures4.v .. EvalFragment4.v);
+     * the same for fragment 6 = fragment 4 + `set!` ON LOCAL VARIABLES, captured or not, against a
+       reference semantics with a STORE OF LOCATIONS (environment = locations, closures capture
+       locations; machine side: a growing location map, closure values represented by pointer slots
+       only, the frame condition on environments weakened to "pointer slots unchanged, direct slots
+       stay direct") — C01_fragment6_static, C01_fragment6_correct, C01_eval_fragment6; the counter
+       ((lambda (n) ((lambda (inc) (inc) (inc)) (lambda () (set! n (if n #f #t)) n))) #f) is inside
+       the fragment (C01_counter6) (Proofs/FrameSteps5.v, StoreLocal5.v, Closures6.v .. EvalFragment6.v);
    together with the scoping theorems of C02, the frame theorems of C04, the
    continuation theorems of C05 and the run-loop theorems of C07/C13.
    OPEN: the semantic compile-correctness theorem for the whole language
-   (C01_compile_correct_stmt): `set!` on a local variable, the (define (f x) ...) spelling,
-   internal definitions, bodies of several expressions, variadic lambdas, quasiquote,
-   define-syntax and the derived forms of the prelude are outside the proved fragments. The
+   (C01_compile_correct_stmt): the (define (f x) ...) spelling, internal definitions, variadic
+   lambdas, builtins applied to closures, quasiquote, define-syntax and the derived forms of the
+   prelude are outside the proved fragments. The
    reference semantics used as the spec oracle by the check is lib/scheme_ref.py.  *)
 From Coq Require Import String.
 From MW Require Import Model.Base Model.Datum Model.VmTypes Model.Heap Model.VmBase Model.Compile Model.Vm
@@ -557,18 +575,27 @@ Proof. vm_compute. repeat split. Qed.
 (* The full statement, kept visible.  OPEN.  Proved: the fragment of C01_fragment_correct
    (constants, quote, if, global variables, global define / set!, builtin application), its
    extension C01_fragment2_correct (lambda expressions applied in place with local variables,
-   CALL and TCALL) and the extension C01_fragment3_correct (closures as values: lambda
+   CALL and TCALL), the extension C01_fragment3_correct (closures as values: lambda
    expressions in any position capturing variables of enclosing lambdas, application of
    closures, procedures named by (define f (lambda ...)) and called by name from later
-   expressions, recursion through the global), each up to Vm::eval (C01_eval_fragment,
-   C01_eval_fragment2, C01_eval_fragment3 and their _done forms; C01_done_state_ok for sessions).
-   Not covered: `set!` on local variables (captured or not: the reference semantics of fragment 3
-   captures VALUES, which is adequate only while locals are immutable; a store of locations is
-   needed), the (define (f x ...) body) spelling (same code as (define f (lambda ...)) up to the
-   free-symbol analysis of the define form), internal definitions, bodies of several
-   expressions, variadic lambdas, builtins applied to closures, quasiquote, define-syntax, the
-   derived forms of the prelude, builtins with effects other than allocation, and the defect
-   classes below. *)
+   expressions, recursion through the global), the extension C01_fragment4_correct (lambda bodies
+   of several expressions) and the extension C01_fragment6_correct (`set!` on local variables,
+   captured or not, against a reference semantics with a store of locations), each up to Vm::eval
+   (C01_eval_fragment, C01_eval_fragment2, C01_eval_fragment3, C01_eval_fragment4,
+   C01_eval_fragment6 and their _done forms; C01_done_state_ok / _ok4 / _ok6 for sessions).  The
+   machine invariant [minv] these theorems assume holds for the booted machine and every state of
+   a session (R2: C01_booted_minv, C01_session_minv, by preservation), so on the booted machine the
+   remaining premises are: the reference environment describes the globals the expression uses
+   ([genv_rel*]; proved for ALL builtin names right after load_builtins, C01_load_builtins_ok, not
+   after the prelude), the specification of the builtins used ([builtin_ok], proved for `not`), and
+   that the macro expander leaves the form alone (explicit [transform_expr] premise).
+   Not covered: the (define (f x ...) body) spelling (same code as (define f (lambda ...)) up to the
+   free-symbol analysis of the define form), internal definitions, variadic lambdas, builtins
+   applied to closures, closure results in the _done forms, quasiquote, define-syntax, the
+   derived forms of the prelude (they are macros: `let`, `begin`, `cond`, ... expand into the core
+   forms of the fragments, but the expander is not part of the proved pipeline), builtins with
+   effects other than allocation (set-car!, vector-set!, display, call/cc, apply, eval), and the
+   defect classes below. *)
 Definition C01_compile_correct_stmt : Prop :=
   forall (reference : list text -> list N) (forms : list text),
     (* for every session of the generator grammar outside the recorded defect classes *)
@@ -589,3 +616,577 @@ Theorem C01_refuted_witnesses :
   S_ "SESSION | OK #<void> | ERR | OK #<void> | OK #(1 2) | OK #(1 2 1 2) | OK #<void> | ERR | OK #f | OK (if 1 2 #f) | OK (a unquote (+ 1 2)) LOG"%string.
 Proof. vm_compute. reflexivity. Qed.
 Print Assumptions C01_refuted_witnesses.
+
+(* ====================================================================================== R2 *)
+(* R2 — the machine invariant [minv] (heap_inv + ginv + sp < scap) for the BOOTED machine and for
+   every state a session can reach, BY PRESERVATION (the generated prelude is never evaluated
+   in the kernel).  [minv] alone is not inductive (restore_continuation sets sp from a saved
+   continuation; nothing in minv speaks about continuations).  The invariant that every
+   monadic computation of the model preserves is
+       rinv s  :=  finv s /\ J s
+   [finv]: Proofs/FlatProofs.v (C02: contains lex_inv, hence heap_inv), preserved by the
+   compiler, every instruction, every builtin (FlatAll.v).  [J] (Proofs/KeepCalc.v): ginv,
+   sp < scap, and "every captured continuation saved its stack up to its own sp"; preserved by
+   every primitive of the state monad, the compiler on ANY datum (KeepCompile.v), every builtin
+   of the real table (KeepListVec.v, KeepPkg.v), every instruction, the run loop including the
+   error path, Vm::eval and the boot sequence (KeepRun.v, BootMinv.v). *)
+From MW Require Proofs.FlatProofs Proofs.FlatAll Proofs.KeepCalc Proofs.KeepCompile Proofs.KeepRun
+  Proofs.BootMinv Proofs.BootGenv Proofs.BootCorollaries Proofs.FragmentBoot.
+
+Theorem C01_J_unfold : forall s, KeepCalc.J s <->
+  ginv s /\ sp s < scap s /\
+  (forall cid k, tget (conts (st s)) cid = Some k -> k_sp k < len (k_stack k)).
+Proof. exact FragmentBoot.J_unfold. Qed.
+Print Assumptions C01_J_unfold.
+
+Theorem C01_rinv_minv : forall s, FlatProofs.finv s /\ KeepCalc.J s -> minv s.
+Proof. exact BootMinv.rinv_minv. Qed.
+Print Assumptions C01_rinv_minv.
+
+Theorem C01_rinv_empty : forall c, 0 < c -> FlatProofs.finv (vm_empty c) /\ KeepCalc.J (vm_empty c).
+Proof. exact BootMinv.rinv_empty. Qed.
+Print Assumptions C01_rinv_empty.
+Example C01_rinv_empty_example : BootMinv.rinv (vm_empty 8192) /\ minv (vm_empty 8192).
+Proof. split; [apply BootMinv.rinv_empty; reflexivity|apply BootMinv.rinv_minv, BootMinv.rinv_empty; reflexivity]. Qed.
+
+(* the compiler, on ANY datum, with any fuel, lambda under construction and tail flag: success
+   or compile error, the state satisfies J again (finv: C02_compile_bc_ok) *)
+Theorem C01_compile_preserves_J : forall f l tail e s, KeepCalc.J s ->
+  match compile_expression f l tail e s with ROk _ s' | RErr _ _ s' => KeepCalc.J s' | _ => True end.
+Proof. exact BootMinv.compile_J_plain. Qed.
+Print Assumptions C01_compile_preserves_J.
+
+(* one instruction of the real machine (any opcode, including CALL/TCALL of any builtin of the
+   generated table, of `apply`, `eval`, call/cc and of a continuation) *)
+Theorem C01_step_preserves_J : forall s, KeepCalc.J s ->
+  match run_one other_builtin s with ROk _ s' | RErr _ _ s' => KeepCalc.J s' | _ => True end.
+Proof. exact BootMinv.run_one_J_plain. Qed.
+Print Assumptions C01_step_preserves_J.
+
+(* Vm::eval of ANY datum (not only fragment expressions), any fuel: whenever a machine is left
+   — a value, a run-time error (registers reset, stack cleared), a compile error — it satisfies
+   the invariant again *)
+Theorem C01_eval_preserves_rinv : forall fuel e s, FlatProofs.finv s /\ KeepCalc.J s ->
+  match eval other_builtin fuel e s with
+  | ROk _ s' | RErr _ _ s' => FlatProofs.finv s' /\ KeepCalc.J s'
+  | _ => True end.
+Proof. exact BootMinv.eval_rinv_plain. Qed.
+Print Assumptions C01_eval_preserves_rinv.
+
+(* the sliced interface (prepare_eval, then run_count with a budget) *)
+Theorem C01_prepare_eval_preserves_rinv : forall e s, FlatProofs.finv s /\ KeepCalc.J s ->
+  match prepare_eval e s with
+  | ROk _ s' | RErr _ _ s' => FlatProofs.finv s' /\ KeepCalc.J s'
+  | _ => True end.
+Proof. exact BootMinv.prepare_eval_rinv_plain. Qed.
+Print Assumptions C01_prepare_eval_preserves_rinv.
+Theorem C01_run_count_preserves_rinv : forall fuel count s, FlatProofs.finv s /\ KeepCalc.J s ->
+  match run_count other_builtin fuel count s with
+  | ROk _ s' | RErr _ _ s' => FlatProofs.finv s' /\ KeepCalc.J s'
+  | _ => True end.
+Proof. exact BootMinv.run_count_rinv_plain. Qed.
+Print Assumptions C01_run_count_preserves_rinv.
+
+(* non-vacuity: ((lambda (x) (set! x 2) x) 1) — a body of two expressions and `set!` on a local
+   variable, OUTSIDE every proved fragment — evaluates on the empty machine to 2 and the final
+   state satisfies the invariant (by the theorem), hence minv *)
+Example C01_eval_preserves_example :
+  exists s', eval other_builtin 200 BootCorollaries.bx_datum (vm_empty 8192) = ROk (Done (CNum (Num.Fixnum 2))) s' /\
+             BootMinv.rinv s' /\ minv s'.
+Proof. exact BootCorollaries.bx_done. Qed.
+
+(* Vm::load_builtins (builtin/mod.rs:35-57) from ANY minv state succeeds, keeps minv and the
+   registers, only extends the machine, and binds EVERY registered builtin name to a global slot
+   holding a pointer to an allocated VBuiltin cell with the index of the name in the generated
+   table ([builtin_rho x] = Some (RBuiltin i) iff the i-th entry of the table is named x; the
+   names are pairwise distinct: BootGenv.builtin_names_nodup) *)
+Theorem C01_load_builtins_ok : forall s, minv s ->
+  exists s0, load_builtins s = ROk tt s0 /\ minv s0 /\ cext s s0 /\
+             sp s0 = sp s /\ bp s0 = bp s /\ ep s0 = ep s /\ out_log s0 = out_log s /\
+             genv_rel BootGenv.builtin_rho s0 /\ genv_rel3 BootGenv.builtin_rho3 s0.
+Proof. exact BootGenv.load_builtins_ok. Qed.
+Print Assumptions C01_load_builtins_ok.
+Theorem C01_builtin_rho_unfold : forall x i, BootGenv.builtin_rho3 x = Some (R3Base (RBuiltin i)) <->
+  exists e, nth_error Gen.Builtins.builtin_table (N.to_nat i) = Some e /\ fst e = x.
+Proof. exact FragmentBoot.builtin_rho3_unfold. Qed.
+Print Assumptions C01_builtin_rho_unfold.
+Theorem C01_load_builtins_preserves_rinv : forall s, FlatProofs.finv s /\ KeepCalc.J s ->
+  match load_builtins s with
+  | ROk _ s' | RErr _ _ s' => FlatProofs.finv s' /\ KeepCalc.J s'
+  | _ => True end.
+Proof. exact BootMinv.load_builtins_rinv_plain. Qed.
+Print Assumptions C01_load_builtins_preserves_rinv.
+(* non-vacuity: the boot sequence without the prelude text (load_builtins over the whole
+   generated table, from vm_empty 8192) *)
+Example C01_load_builtins_example :
+  exists s, boot_with [] = Some s /\ load_builtins (vm_empty 8192) = ROk tt s /\ BootMinv.rinv s /\ minv s /\
+            genv_rel BootGenv.builtin_rho s /\ genv_rel3 BootGenv.builtin_rho3 s.
+Proof. exact BootCorollaries.boot_bare. Qed.
+
+(* the boot sequence with ANY prelude text, and the machine of Vm::new *)
+Theorem C01_boot_rinv : forall prelude s, boot_with prelude = Some s -> FlatProofs.finv s /\ KeepCalc.J s.
+Proof. exact BootMinv.boot_with_rinv. Qed.
+Print Assumptions C01_boot_rinv.
+Theorem C01_booted_minv : forall s, booted = Some s -> minv s.
+Proof. exact BootMinv.booted_minv. Qed.
+Print Assumptions C01_booted_minv.
+(* every state of a session: any number of Vm::eval calls from the booted machine, with any
+   data, any fuels, whatever their outcomes *)
+Theorem C01_session_minv : forall s0 s, booted = Some s0 -> FlatAll.evals s0 s -> minv s.
+Proof. exact BootMinv.session_minv. Qed.
+Print Assumptions C01_session_minv.
+
+(* C01_eval_fragment3 on the booted machine: the premise [minv] is discharged (the same holds on
+   every state of a session: Proofs/BootCorollaries.v eval_fragment3_session, FragmentBoot.v eval_fragment4_session, and
+   C01_eval_fragment6_session below for the largest fragment).  What remains: the reference environment rho must describe (part of) the
+   machine's globals ([genv_rel3 rho s]; the empty environment always does), and the macro
+   expander must leave the form alone (explicit premise, as before). *)
+Theorem C01_eval_fragment3_booted :
+  forall (ob : N -> M vcell) (bsem : N -> list rval -> option rval),
+  (forall b, builtin_ok ob bsem b) -> (forall b, builtin_envs ob bsem b) ->
+  forall e rho r rho' s,
+  booted = Some s ->
+  wf3 e [] -> ref_eval3 bsem [] [] rho e r rho' -> genv_rel3 rho s ->
+  transform_expr TRANSFORM_FUEL s (cell_of3 e) = Ok (cell_of3 e) ->
+  exists n m, (forall fuel, (n <= fuel)%nat -> eval ob fuel (cell_of3 e) s = halt_result m) /\
+    vrep3 m (acc m) r /\ genv_rel3 rho' m /\ minv m /\ cext s m /\
+    sp m = sp s /\ bp m = bp s /\ ep m = ep s /\ out_log m = out_log s.
+Proof. exact BootCorollaries.eval_fragment3_booted. Qed.
+Print Assumptions C01_eval_fragment3_booted.
+(* non-vacuity on the machine with the builtins loaded (boot without the prelude text): (not '#f)
+   with the operator read from the GLOBAL `not` that load_builtins bound; all hypotheses of
+   C01_eval_fragment3 hold with the reference environment of ALL builtin names, and the model
+   computes #t *)
+Example C01_builtins_loaded_example :
+  exists s, load_builtins (vm_empty 8192) = ROk tt s /\ minv s /\ genv_rel3 BootGenv.builtin_rho3 s /\
+    wf3 BootCorollaries.bn_e [] /\
+    ref_eval3 bsem_not [] [] BootGenv.builtin_rho3 BootCorollaries.bn_e (R3Base (RDatum (CBool true))) BootGenv.builtin_rho3 /\
+    transform_expr TRANSFORM_FUEL s (cell_of3 BootCorollaries.bn_e) = Ok (cell_of3 BootCorollaries.bn_e).
+Proof. exact BootCorollaries.bn_hypotheses. Qed.
+Example C01_builtins_loaded_example_run :
+  match load_builtins (vm_empty 8192) with
+  | ROk _ s => match eval other_builtin 200 (cell_of3 BootCorollaries.bn_e) s with
+               | ROk (Done c) s' => c = CBool true /\ sp s' = 0 /\ bp s' = 0 /\ ep s' = USIZE_MAX
+               | _ => False end
+  | _ => False end.
+Proof. exact BootCorollaries.bn_run. Qed.
+
+(* ====================================================================================== fragment 4 *)
+(* Fragment 4 = fragment 3 + lambda BODIES OF SEVERAL EXPRESSIONS, (lambda (x ...) e1 e2 ... ek), k >= 1
+   (Proofs/Closures4.v, CompileStatic4.v, CompileCorrect4.v, EvalFragment4.v; `begin` is not a core
+   form of the compiler, compile.rs:424-460 loops over the body): e1 .. e(k-1) are compiled in
+   NON-tail position and evaluated for effect, their value stays in %acc and is overwritten; ek is
+   compiled in tail position.  No ei is a (define ...) form (no internal definitions:
+   internally_defined_symbols is then empty whatever k, so the environment map is that of fragment 3).
+   Reference semantics [ref_eval4]: the closure-application rule evaluates the body list with the
+   same left-to-right list judgement as operands ([ref_evals4], global environment threaded) and
+   returns the LAST value.  Everything else as fragment 3. *)
+From MW Require Import Proofs.Closures4 Proofs.CompileStatic4 Proofs.CompileCorrect4 Proofs.EvalFragment4.
+
+Theorem C01_fragment4_static : forall e sc, wf4 e sc ->
+  forall f l tail s, (cell_size (cell_of4 e) < f)%nat -> hdr4 l sc s -> minv s ->
+  exists l' s' code, compile_expression f l tail (cell_of4 e) s = ROk l' s' /\
+    fwd l' = fwd l ++ code /\ same_hdr l l' /\ minv s' /\ cext s s' /\ same_regs s s' /\
+    envs (st s') = envs (st s).
+Proof. exact fragment4_static. Qed.
+Print Assumptions C01_fragment4_static.
+
+(* well-formedness of a lambda with a body list, spelled out *)
+Theorem C01_wf4_lam_unfold : forall sc ps fs bodies, wf4 (ZLam ps fs bodies) sc <->
+  bodies <> [] /\
+  (forall x, In x ps -> is_primitive_symbol (CSym x) = false) /\
+  (forall b, In b bodies -> is_define4 b = false) /\
+  free_symbols (lam_cells ps (map cell_of4 bodies)) = Ok (map CSym fs) /\
+  (forall x, In x (flat_map allvars4 bodies) -> In x ps \/ bound_in sc x = false \/ In x fs) /\
+  Forall (fun b => wf4 b (ps ++ capnames sc fs)) bodies.
+Proof. exact wf4_lam. Qed.
+Print Assumptions C01_wf4_lam_unfold.
+
+Theorem C01_fragment4_correct :
+  forall (ob : N -> M vcell) (bsem : N -> list rval -> option rval),
+  (forall b, builtin_ok ob bsem b) -> (forall b, builtin_envs ob bsem b) ->
+  forall sc lv rho e r rho', ref_eval4 bsem sc lv rho e r rho' ->
+  forall f l tail s l' s' code, wf4 e sc -> (cell_size (cell_of4 e) < f)%nat -> hdr4 l sc s -> minv s ->
+    compile_expression f l tail (cell_of4 e) s = ROk l' s' -> fwd l' = fwd l ++ code ->
+    forall m lp bc,
+      cext s' m -> minv m -> code_in m lp bc -> seg bc (len (fwd l)) code -> ip m = (lp, len (fwd l)) ->
+      genv_rel4 rho m -> lrel4 lv m -> (tail = true -> tframe m) ->
+      ok_n4 ob m lp (len (fwd l) + len code) r rho' \/ (tail = true /\ ok_t4 ob m r rho').
+Proof. exact fragment4_correct. Qed.
+Print Assumptions C01_fragment4_correct.
+
+Theorem C01_ok_n4_unfold : forall ob m lp q r rho', ok_n4 ob m lp q r rho' <->
+  exists n m', RunProofs.steps ob n m = Some m' /\ frame2 m m' /\ minv m' /\ ip m' = (lp, q) /\
+    vrep4 m' (acc m') r /\ genv_rel4 rho' m'.
+Proof. exact ok_n4_unfold. Qed.
+Print Assumptions C01_ok_n4_unfold.
+Theorem C01_ok_t4_unfold : forall ob m r rho', ok_t4 ob m r rho' <->
+  exists n m' k e i b, RunProofs.steps ob n m = Some m' /\ frame_at m k e i b /\ rext m m' /\ minv m' /\
+    vrep4 m' (acc m') r /\ genv_rel4 rho' m' /\
+    sp m' = bp m - k /\ ep m' = e /\ ip m' = i /\ bp m' = b /\ out_log m' = out_log m /\
+    (forall j, j <= bp m - k -> sget m' j = sget m j).
+Proof. exact ok_t4_unfold. Qed.
+Print Assumptions C01_ok_t4_unfold.
+(* the body loop of the model's compile_lambda is [compile_bodies] (tail flag true exactly for the
+   last expression), which is what the code object of a closure value was compiled by *)
+Theorem C01_compile_bodies_is_body_loop : forall f bodies lam s,
+  body_loop4 (compile_expression f) (fold_right CPair CNil bodies) lam s = compile_bodies f lam bodies s.
+Proof. exact compile_bodies_is_body_loop. Qed.
+Print Assumptions C01_compile_bodies_is_body_loop.
+
+Theorem C01_eval_fragment4 :
+  forall (ob : N -> M vcell) (bsem : N -> list rval -> option rval),
+  (forall b, builtin_ok ob bsem b) -> (forall b, builtin_envs ob bsem b) ->
+  forall e rho r rho' s,
+  wf4 e [] -> ref_eval4 bsem [] [] rho e r rho' -> minv s -> genv_rel4 rho s ->
+  transform_expr TRANSFORM_FUEL s (cell_of4 e) = Ok (cell_of4 e) ->
+  exists n m, (forall fuel, (n <= fuel)%nat -> eval ob fuel (cell_of4 e) s = halt_result m) /\
+    vrep4 m (acc m) r /\ genv_rel4 rho' m /\ minv m /\ cext s m /\
+    sp m = sp s /\ bp m = bp s /\ ep m = ep s /\ out_log m = out_log s.
+Proof. exact eval_fragment4. Qed.
+Print Assumptions C01_eval_fragment4.
+
+Theorem C01_eval_fragment4_done :
+  forall (ob : N -> M vcell) (bsem : N -> list rval -> option rval),
+  (forall b, builtin_ok ob bsem b) -> (forall b, builtin_envs ob bsem b) ->
+  forall e rho b rho' s,
+  wf4 e [] -> ref_eval4 bsem [] [] rho e (R4Base b) rho' -> minv s -> genv_rel4 rho s ->
+  transform_expr TRANSFORM_FUEL s (cell_of4 e) = Ok (cell_of4 e) ->
+  exists n m,
+    vrep (acc m) b (hp m) (st m) /\ genv_rel4 rho' m /\ minv m /\ cext s m /\
+    sp m = sp s /\ bp m = bp s /\ ep m = ep s /\ out_log m = out_log s /\
+    (forall fuel, (n <= fuel)%nat -> eval ob fuel (cell_of4 e) s = halt_result m) /\
+    (halt_result m <> RNoFuel \/ (no_ptr_cells (hp m) /\ (rcost b <= cell_fuel m)%nat) ->
+     forall fuel, (n <= fuel)%nat ->
+       eval ob fuel (cell_of4 e) s = ROk (Done (rcell b)) (with_stack m tempty (sp m))).
+Proof. exact eval_fragment4_done. Qed.
+Print Assumptions C01_eval_fragment4_done.
+
+Theorem C01_done_state_ok4 : forall rho m, minv m -> genv_rel4 rho m ->
+  minv (with_stack m tempty (sp m)) /\ genv_rel4 rho (with_stack m tempty (sp m)).
+Proof. exact done_state_ok4. Qed.
+Print Assumptions C01_done_state_ok4.
+
+(* non-vacuity: ((lambda (x) 'ignored x) '(1 2)) — a body of two expressions, the first evaluated
+   for effect — has the reference value (1 2), the hypotheses hold on the empty machine ... *)
+Example C01_fragment4_example :
+  wf4 ex6_e [] /\ minv (vm_empty 8192) /\ genv_rel4 rho4_empty (vm_empty 8192) /\
+  ref_eval4 bsem_not [] [] rho4_empty ex6_e (R4Base (RDatum ex2_list)) rho4_empty.
+Proof. exact ex6_hypotheses. Qed.
+(* ... and the model evaluates it to (1 2) with the registers of the start *)
+Example C01_fragment4_example_run :
+  transform_expr TRANSFORM_FUEL (vm_empty 8192) (cell_of4 ex6_e) = Ok (cell_of4 ex6_e) /\
+  match eval other_builtin 200 (cell_of4 ex6_e) (vm_empty 8192) with
+  | ROk (Done c) s' => c = ex2_list /\ sp s' = 0 /\ bp s' = 0 /\ ep s' = USIZE_MAX
+  | _ => False
+  end.
+Proof. exact ex6_run. Qed.
+(* a session: (define g #f), then ((lambda (x) (set! g x) (if g 'yes 'no)) #t) — the non-tail body
+   expression has an effect on a global that the tail expression observes: reference values
+   #<void> and yes ... *)
+Example C01_fragment4_session :
+  wf4 ex7_def [] /\ wf4 ex7_call [] /\ minv (vm_empty 8192) /\ genv_rel4 rho4_empty (vm_empty 8192) /\
+  ref_eval4 bsem_not [] [] rho4_empty ex7_def (R4Base (RDatum CVoid)) ex7_rho /\
+  ref_eval4 bsem_not [] [] ex7_rho ex7_call (R4Base (RDatum (CSym (S_ "yes")))) ex7_rho'.
+Proof. exact ex7_hypotheses. Qed.
+(* ... and the model, run on the two forms in sequence, answers #<void> and yes *)
+Example C01_fragment4_session_run :
+  transform_expr TRANSFORM_FUEL (vm_empty 8192) (cell_of4 ex7_def) = Ok (cell_of4 ex7_def) /\
+  match eval other_builtin 200 (cell_of4 ex7_def) (vm_empty 8192) with
+  | ROk (Done c1) s1 => c1 = CVoid /\
+      transform_expr TRANSFORM_FUEL s1 (cell_of4 ex7_call) = Ok (cell_of4 ex7_call) /\
+      match eval other_builtin 200 (cell_of4 ex7_call) s1 with
+      | ROk (Done c2) s2 => c2 = CSym (S_ "yes") /\ sp s2 = 0 /\ bp s2 = 0 /\ ep s2 = USIZE_MAX
+      | _ => False
+      end
+  | _ => False
+  end.
+Proof. exact ex7_run. Qed.
+
+(* ====================================================================================== set! on locals: machine level *)
+(* `set!` on a LOCAL variable (a parameter of the running lambda: direct slot of the activation
+   environment; or a variable captured from an enclosing lambda: reached through ONE pointer).
+   Proofs/FrameSteps5.v, StoreLocal5.v, Closures5.v.  Machine-level facts (used by fragment 6
+   below): the compile shape, the instruction MOV %acc (lexical slot i), and the frame condition
+   [frameL (loc_one e j)]: everything [frame] says, and every existing environment payload
+   keeps its length and all its slots EXCEPT slot j of environment e.  [cext], [frame], [minv],
+   [code_in] survive the store; what fails is exactly the environment clause of [rext] / [frame2],
+   on which the closure values of fragments 3 and 4 (which pin the CONTENT of each captured slot)
+   depend. *)
+From MW Require Proofs.FrameSteps5 Proofs.Closures5 Proofs.StoreLocal5.
+
+(* (set! x e) for a name bound by the environment map of the lambda under construction compiles
+   to: the code of e; MOV %acc (lexical slot i); MOV_IMMEDIATE #<void> %acc.  No global slot is
+   created (only the symbol is interned) *)
+Theorem C01_compile_set_local : forall sc x i (ce : cell) f l tail s l1 s1 code,
+  is_primitive_symbol (CSym x) = false -> pindex x sc = Some i -> hdr3 l sc s ->
+  compile_expression f l false ce s = ROk l1 s1 -> fwd l1 = fwd l ++ code -> same_hdr l l1 ->
+  minv s1 -> cext s s1 ->
+  exists l2 s2,
+    compile_expression (S f) l tail (CPair SET_ (CPair (CSym x) (CPair ce CNil))) s = ROk l2 s2 /\
+    fwd l2 = fwd l ++ code ++ [VOp OMov; VAcc; VLexSlot i; VOp OMovImmediate; VVoid; VAcc] /\
+    same_hdr l l2 /\ minv s2 /\ cext s1 s2 /\ same_regs s1 s2 /\ st s2 = st s1 /\
+    g_bind s2 = g_bind s1 /\ g_slots s2 = g_slots s1.
+Proof. exact FrameSteps5.compile_set_local. Qed.
+Print Assumptions C01_compile_set_local.
+
+(* the location of slot i of the running activation, spelled out *)
+Theorem C01_loc_of_unfold : forall m i e j, StoreLocal5.loc_of m i e j <->
+  exists eid slots v, allocated (hp m) (ep m) /\ cell_at (hp m) (ep m) = VLexEnv eid /\
+    eid < next_id (st m) /\ tget (envs (st m)) eid = Some slots /\ list_get slots i = Some v /\
+    (((forall a k, v <> VLexPtr a k) /\ e = eid /\ j = i) \/
+     (exists a, v = VLexPtr a j /\ allocated (hp m) a /\ cell_at (hp m) a = VLexEnv e /\
+        exists sl w, e < next_id (st m) /\ tget (envs (st m)) e = Some sl /\ list_get sl j = Some w /\
+                     forall a' k, w <> VLexPtr a' k)).
+Proof. intros; reflexivity. Qed.
+Print Assumptions C01_loc_of_unfold.
+
+(* MOV %acc (lexical slot i); MOV_IMMEDIATE #<void> %acc: two instructions, the location of slot
+   i now holds the old %acc, %acc is #<void>, everything else — the stack, the registers, the
+   globals, every other slot of every existing environment, the location map of the running
+   activation — is as before *)
+Theorem C01_store_local_tail : forall (ob : N -> M vcell) m1 lp bc p i e j,
+  minv m1 -> code_in m1 lp bc -> seg bc p [VOp OMov; VAcc; VLexSlot i; VOp OMovImmediate; VVoid; VAcc] ->
+  ip m1 = (lp, p) -> StoreLocal5.loc_of m1 i e j -> (forall a k, acc m1 <> VLexPtr a k) ->
+  exists m3, RunProofs.steps ob 2 m1 = Some m3 /\ StoreLocal5.frameL (StoreLocal5.loc_one e j) m1 m3 /\ minv m3 /\
+    ip m3 = (lp, p + 6) /\ acc m3 = VVoid /\
+    (exists sl, tget (envs (st m3)) e = Some sl /\ list_get sl j = Some (acc m1)) /\
+    g_slots m3 = g_slots m1 /\
+    (forall i' e' j', StoreLocal5.loc_of m1 i' e' j' -> StoreLocal5.loc_of m3 i' e' j').
+Proof. exact StoreLocal5.store_local_tail. Qed.
+Print Assumptions C01_store_local_tail.
+Theorem C01_frameL_unfold : forall L m m', StoreLocal5.frameL L m m' <->
+  frame m m' /\
+  (forall e sl, e < next_id (st m) -> tget (envs (st m)) e = Some sl ->
+     exists sl', tget (envs (st m')) e = Some sl' /\ len sl' = len sl /\
+       forall k, ~ L e k -> list_get sl' k = list_get sl k).
+Proof. exact FragmentBoot.frameL_unfold. Qed.
+Print Assumptions C01_frameL_unfold.
+
+(* non-vacuity, as model runs on the empty machine: the COUNTER without numeric builtins
+   ((lambda (n) ((lambda (inc) (inc) (inc)) (lambda () (set! n (if n #f #t)) n))) #f)
+   — n is captured by the thunk, assigned through the pointer, both calls see the same location —
+   answers #f after two toggles, #t after one and after three *)
+Example C01_counter_run :
+  match eval other_builtin 300 Closures5.counter_datum (vm_empty 8192) with
+  | ROk (Done c) s' => c = CBool false /\ sp s' = 0 /\ bp s' = 0 /\ ep s' = USIZE_MAX
+  | _ => False
+  end /\
+  match eval other_builtin 300 Closures5.counter1_datum (vm_empty 8192) with
+  | ROk (Done c) s' => c = CBool true /\ sp s' = 0 /\ bp s' = 0 /\ ep s' = USIZE_MAX
+  | _ => False
+  end /\
+  match eval other_builtin 300 Closures5.counter3_datum (vm_empty 8192) with
+  | ROk (Done c) s' => c = CBool true /\ sp s' = 0 /\ bp s' = 0 /\ ep s' = USIZE_MAX
+  | _ => False
+  end.
+Proof. split; [exact Closures5.counter_run|split; [exact Closures5.counter1_run|exact Closures5.counter3_run]]. Qed.
+
+(* ====================================================================================== fragment 6 *)
+(* Fragment 6 = fragment 4 + `set!` ON LOCAL VARIABLES, captured or not, against a reference
+   semantics with a STORE OF LOCATIONS (Proofs/Closures6.v, CompileStatic6.v, CompileCorrect6.v,
+   EvalFragment6.v).  [WSet x e] assigns the location of x when the scope binds x, the global x
+   otherwise.  [ref_eval6 bsem sc lv sg rho e r sg' rho']: the environment lv maps the names sc to
+   LOCATIONS (naturals), the store sg (a list, growing) maps locations to values; a variable reads
+   sg[lv[i]]; a local set! updates it; a lambda captures the LOCATIONS of its free variables
+   ([R6Clo ps cs bodies clocs]); a closure application allocates fresh locations for the
+   parameters at the end of the store.
+   Machine side: a location map mu (location -> heap address of the activation environment that
+   owns the variable, slot), growing at every ENTER of a closure; [store_rel mu sg m]: the slot
+   mu(l) holds a direct (non-pointer) representation of sg[l], and mu is injective on
+   (environment id, slot); a closure value is represented by pointer slots only ([vrep6]: the
+   captured slot i is the pointer mu(clocs[i])), so it survives assignments; [lrel6]: slot i of
+   the running activation is direct and IS mu(lv[i]), or holds the pointer mu(lv[i]).  The frame
+   condition "existing environment payloads unchanged" of fragments 2-4 ([rext], [frame2]) is
+   weakened to [wext] / [frame6]: lengths kept, pointer slots unchanged, direct slots stay direct. *)
+From MW Require Import Proofs.Closures6 Proofs.CompileStatic6 Proofs.CompileCorrect6 Proofs.EvalFragment6.
+
+(* the rules of the reference semantics that involve the store (constructors of ref_eval6) *)
+Theorem C01_ref_eval6_store_rules : forall (bsem : N -> list rval -> option rval),
+  (forall sc lv sg rho x i l r, pindex x sc = Some i -> nth_error lv (N.to_nat i) = Some l ->
+     nth_error sg l = Some r -> ref_eval6 bsem sc lv sg rho (WVar x) r sg rho) /\
+  (forall sc lv sg rho x e r sg1 rho1 i l, pindex x sc = Some i -> nth_error lv (N.to_nat i) = Some l ->
+     ref_eval6 bsem sc lv sg rho e r sg1 rho1 -> (l < length sg1)%nat ->
+     ref_eval6 bsem sc lv sg rho (WSet x e) (R6Base (RDatum CVoid)) (sset6 sg1 l r) rho1) /\
+  (forall sc lv sg rho ps fs bodies clocs,
+     Forall2 (fun x l => exists i, pindex x sc = Some i /\ nth_error lv (N.to_nat i) = Some l) (capnames6 sc fs) clocs ->
+     ref_eval6 bsem sc lv sg rho (WLam ps fs bodies) (R6Clo ps (capnames6 sc fs) bodies clocs) sg rho) /\
+  (forall sc lv sg rho f args rs sg1 rho1 ps cs bodies clocs sg2 rho2 vs pre r sg3 rho3,
+     ref_evals6 bsem sc lv sg rho args rs sg1 rho1 ->
+     ref_eval6 bsem sc lv sg1 rho1 f (R6Clo ps cs bodies clocs) sg2 rho2 ->
+     length rs = length ps ->
+     ref_evals6 bsem (ps ++ cs) (seq (length sg2) (length rs) ++ clocs) (sg2 ++ rs) rho2 bodies vs sg3 rho3 ->
+     vs = pre ++ [r] ->
+     ref_eval6 bsem sc lv sg rho (WApp f args) r sg3 rho3).
+Proof. exact FragmentBoot.ref_eval6_store_rules. Qed.
+Print Assumptions C01_ref_eval6_store_rules.
+
+Theorem C01_fragment6_static : forall e sc, wf6 e sc ->
+  forall f l tail s, (cell_size (cell_of6 e) < f)%nat -> hdr6 l sc s -> minv s ->
+  exists l' s' code, compile_expression f l tail (cell_of6 e) s = ROk l' s' /\
+    fwd l' = fwd l ++ code /\ same_hdr l l' /\ minv s' /\ cext s s' /\ same_regs s s' /\
+    envs (st s') = envs (st s).
+Proof. exact fragment6_static. Qed.
+Print Assumptions C01_fragment6_static.
+
+Theorem C01_fragment6_correct :
+  forall (ob : N -> M vcell) (bsem : N -> list rval -> option rval),
+  (forall b, builtin_ok ob bsem b) -> (forall b, builtin_envs ob bsem b) ->
+  forall sc lv sg rho e r sg' rho', ref_eval6 bsem sc lv sg rho e r sg' rho' ->
+  forall f l tail s l' s' code, wf6 e sc -> (cell_size (cell_of6 e) < f)%nat -> hdr6 l sc s -> minv s ->
+    compile_expression f l tail (cell_of6 e) s = ROk l' s' -> fwd l' = fwd l ++ code ->
+    forall m mu lp bc,
+      cext s' m -> minv m -> code_in m lp bc -> seg bc (len (fwd l)) code -> ip m = (lp, len (fwd l)) ->
+      genv_rel6 mu rho m -> lrel6 mu lv m -> store_rel mu sg m -> (tail = true -> tframe m) ->
+      ok_n6 ob mu sg' m lp (len (fwd l) + len code) r rho' \/ (tail = true /\ ok_t6 ob mu sg' m r rho').
+Proof. exact fragment6_correct. Qed.
+Print Assumptions C01_fragment6_correct.
+
+Theorem C01_ok_n6_unfold : forall ob mu sg' m lp q r rho', ok_n6 ob mu sg' m lp q r rho' <->
+  exists n m' mu', RunProofs.steps ob n m = Some m' /\ (exists more, mu' = mu ++ more) /\ frame6 m m' /\ minv m' /\
+    ip m' = (lp, q) /\ vrep6 mu' m' (acc m') r /\ genv_rel6 mu' rho' m' /\ store_rel mu' sg' m'.
+Proof. exact ok_n6_unfold. Qed.
+Print Assumptions C01_ok_n6_unfold.
+Theorem C01_ok_t6_unfold : forall ob mu sg' m r rho', ok_t6 ob mu sg' m r rho' <->
+  exists n m' mu' k e i b, RunProofs.steps ob n m = Some m' /\ (exists more, mu' = mu ++ more) /\
+    frame_at m k e i b /\ wext m m' /\ minv m' /\
+    vrep6 mu' m' (acc m') r /\ genv_rel6 mu' rho' m' /\ store_rel mu' sg' m' /\
+    sp m' = bp m - k /\ ep m' = e /\ ip m' = i /\ bp m' = b /\ out_log m' = out_log m /\
+    (forall j, j <= bp m - k -> sget m' j = sget m j).
+Proof. exact ok_t6_unfold. Qed.
+Print Assumptions C01_ok_t6_unfold.
+Theorem C01_frame6_unfold : forall m m', frame6 m m' <-> frame m m' /\
+  forall e sl, e < next_id (st m) -> tget (envs (st m)) e = Some sl ->
+    exists sl', tget (envs (st m')) e = Some sl' /\ len sl' = len sl /\
+      (forall k a j, list_get sl k = Some (VLexPtr a j) -> list_get sl' k = Some (VLexPtr a j)) /\
+      (forall k w, list_get sl k = Some w -> (forall a j, w <> VLexPtr a j) ->
+         exists w', list_get sl' k = Some w' /\ (forall a j, w' <> VLexPtr a j)).
+Proof. exact frame6_unfold. Qed.
+Print Assumptions C01_frame6_unfold.
+Theorem C01_vrep6_closure_unfold : forall mu m v ps cs bodies clocs, vrep6 mu m v (R6Clo ps cs bodies clocs) <->
+  exists cp lamp cep ceid cslots, v = VPtr cp /\
+    allocated (hp m) cp /\ cell_at (hp m) cp = VClosure lamp cep /\
+    allocated (hp m) cep /\ cell_at (hp m) cep = VLexEnv ceid /\ ceid < next_id (st m) /\
+    tget (envs (st m)) ceid = Some cslots /\ len cslots = len ps + len cs /\
+    length clocs = length cs /\ closure_code6 m lamp ps cs bodies /\
+    all_idx6 (fun i l => exists a j, nth_error mu l = Some (a, j) /\ list_get cslots i = Some (VLexPtr a j))
+             clocs (len ps).
+Proof. exact vrep6_closure_unfold. Qed.
+Print Assumptions C01_vrep6_closure_unfold.
+Theorem C01_store_rel_unfold : forall mu sg m, store_rel mu sg m <->
+  length mu = length sg /\
+  (forall l a j r, nth_error mu l = Some (a, j) -> nth_error sg l = Some r ->
+     exists eid sl w, allocated (hp m) a /\ cell_at (hp m) a = VLexEnv eid /\ eid < next_id (st m) /\
+       tget (envs (st m)) eid = Some sl /\ list_get sl j = Some w /\ (forall a' j', w <> VLexPtr a' j') /\ vrep6 mu m w r) /\
+  (forall l1 l2 a1 a2 j eid, nth_error mu l1 = Some (a1, j) -> nth_error mu l2 = Some (a2, j) ->
+     cell_at (hp m) a1 = VLexEnv eid -> cell_at (hp m) a2 = VLexEnv eid -> l1 = l2).
+Proof. exact store_rel_unfold. Qed.
+Print Assumptions C01_store_rel_unfold.
+Theorem C01_lrel6_unfold : forall mu lv m, lrel6 mu lv m <->
+  forall i l, nth_error lv (N.to_nat i) = Some l ->
+  exists eid slots v a j, allocated (hp m) (ep m) /\ cell_at (hp m) (ep m) = VLexEnv eid /\
+    eid < next_id (st m) /\ tget (envs (st m)) eid = Some slots /\ list_get slots i = Some v /\
+    nth_error mu l = Some (a, j) /\
+    (((forall a' j', v <> VLexPtr a' j') /\ a = ep m /\ j = i) \/ v = VLexPtr a j).
+Proof. exact lrel6_unfold. Qed.
+Print Assumptions C01_lrel6_unfold.
+
+(* Vm::eval on a top-level expression of fragment 6, from any state whose globals and store are
+   represented (in particular the empty store with the empty location map) *)
+Theorem C01_eval_fragment6 :
+  forall (ob : N -> M vcell) (bsem : N -> list rval -> option rval),
+  (forall b, builtin_ok ob bsem b) -> (forall b, builtin_envs ob bsem b) ->
+  forall e mu sg rho r sg' rho' s,
+  wf6 e [] -> ref_eval6 bsem [] [] sg rho e r sg' rho' -> minv s -> genv_rel6 mu rho s -> store_rel mu sg s ->
+  transform_expr TRANSFORM_FUEL s (cell_of6 e) = Ok (cell_of6 e) ->
+  exists n m mu', (forall fuel, (n <= fuel)%nat -> eval ob fuel (cell_of6 e) s = halt_result m) /\
+    (exists more, mu' = mu ++ more) /\ vrep6 mu' m (acc m) r /\ genv_rel6 mu' rho' m /\ store_rel mu' sg' m /\
+    minv m /\ cext s m /\ sp m = sp s /\ bp m = bp s /\ ep m = ep s /\ out_log m = out_log s.
+Proof. exact eval_fragment6. Qed.
+Print Assumptions C01_eval_fragment6.
+
+Theorem C01_eval_fragment6_done :
+  forall (ob : N -> M vcell) (bsem : N -> list rval -> option rval),
+  (forall b, builtin_ok ob bsem b) -> (forall b, builtin_envs ob bsem b) ->
+  forall e mu sg rho b sg' rho' s,
+  wf6 e [] -> ref_eval6 bsem [] [] sg rho e (R6Base b) sg' rho' -> minv s -> genv_rel6 mu rho s -> store_rel mu sg s ->
+  transform_expr TRANSFORM_FUEL s (cell_of6 e) = Ok (cell_of6 e) ->
+  exists n m mu', (exists more, mu' = mu ++ more) /\
+    vrep (acc m) b (hp m) (st m) /\ genv_rel6 mu' rho' m /\ store_rel mu' sg' m /\ minv m /\ cext s m /\
+    sp m = sp s /\ bp m = bp s /\ ep m = ep s /\ out_log m = out_log s /\
+    (forall fuel, (n <= fuel)%nat -> eval ob fuel (cell_of6 e) s = halt_result m) /\
+    (halt_result m <> RNoFuel \/ (no_ptr_cells (hp m) /\ (rcost b <= cell_fuel m)%nat) ->
+     forall fuel, (n <= fuel)%nat ->
+       eval ob fuel (cell_of6 e) s = ROk (Done (rcell b)) (with_stack m tempty (sp m))).
+Proof. exact eval_fragment6_done. Qed.
+Print Assumptions C01_eval_fragment6_done.
+
+(* sessions compose: globals AND store stay represented in the state a Done evaluation returns *)
+Theorem C01_done_state_ok6 : forall mu sg rho m, minv m -> genv_rel6 mu rho m -> store_rel mu sg m ->
+  minv (with_stack m tempty (sp m)) /\ genv_rel6 mu rho (with_stack m tempty (sp m)) /\
+  store_rel mu sg (with_stack m tempty (sp m)).
+Proof. exact done_state_ok6. Qed.
+Print Assumptions C01_done_state_ok6.
+
+(* on the booted machine and every session state (R2) *)
+Theorem C01_eval_fragment6_session :
+  forall (ob : N -> M vcell) (bsem : N -> list rval -> option rval),
+  (forall b, builtin_ok ob bsem b) -> (forall b, builtin_envs ob bsem b) ->
+  forall e mu sg rho r sg' rho' s0 s,
+  booted = Some s0 -> FlatAll.evals s0 s ->
+  wf6 e [] -> ref_eval6 bsem [] [] sg rho e r sg' rho' -> genv_rel6 mu rho s -> store_rel mu sg s ->
+  transform_expr TRANSFORM_FUEL s (cell_of6 e) = Ok (cell_of6 e) ->
+  exists n m mu', (forall fuel, (n <= fuel)%nat -> eval ob fuel (cell_of6 e) s = halt_result m) /\
+    (exists more, mu' = mu ++ more) /\ vrep6 mu' m (acc m) r /\ genv_rel6 mu' rho' m /\ store_rel mu' sg' m /\
+    minv m /\ cext s m /\ sp m = sp s /\ bp m = bp s /\ ep m = ep s /\ out_log m = out_log s.
+Proof. exact FragmentBoot.eval_fragment6_session. Qed.
+Print Assumptions C01_eval_fragment6_session.
+
+(* non-vacuity (a): ((lambda (n) ((lambda (u) n) (set! n #t))) #f) — set! on a parameter the
+   running lambda owns (direct slot), in operand position, observed afterwards through a closure
+   that captured n (pointer slot): reference value #t, final store [#t; #<void>] ... *)
+Example C01_fragment6_example :
+  wf6 exa6 [] /\ minv (vm_empty 8192) /\ genv_rel6 [] rho6_empty (vm_empty 8192) /\ store_rel [] [] (vm_empty 8192) /\
+  ref_eval6 bsem_not [] [] [] rho6_empty exa6 (vB6 true) [vB6 true; vVoid6] rho6_empty.
+Proof. exact exa6_hypotheses. Qed.
+Example C01_fragment6_example_run :
+  transform_expr TRANSFORM_FUEL (vm_empty 8192) (cell_of6 exa6) = Ok (cell_of6 exa6) /\
+  match eval other_builtin 300 (cell_of6 exa6) (vm_empty 8192) with
+  | ROk (Done c) s' => c = CBool true /\ sp s' = 0 /\ bp s' = 0 /\ ep s' = USIZE_MAX
+  | _ => False
+  end.
+Proof. exact exa6_run. Qed.
+(* (b) THE COUNTER ((lambda (n) ((lambda (inc) (inc) (inc)) (lambda () (set! n (if n #f #t)) n))) #f)
+   is an expression of the fragment (counter6; its datum is what the reader produces for the text),
+   satisfies every hypothesis on the empty machine, and has the reference value #f with the final
+   store [#f; <the thunk, capturing location 0>]: every call of the thunk toggles location 0
+   through the pointer slot of its activation ... *)
+Example C01_counter6 :
+  match Parse.parse_text counter6_src with Ok (d, _) => d = cell_of6 counter6 | _ => False end /\
+  wf6 counter6 [] /\ minv (vm_empty 8192) /\ genv_rel6 [] rho6_empty (vm_empty 8192) /\ store_rel [] [] (vm_empty 8192) /\
+  ref_eval6 bsem_not [] [] [] rho6_empty counter6 (vB6 false) [vB6 false; thunk_val6] rho6_empty /\
+  ref_eval6 bsem_not [] [] [] rho6_empty counter6_1 (vB6 true) [vB6 true; thunk_val6] rho6_empty /\
+  ref_eval6 bsem_not [] [] [] rho6_empty counter6_3 (vB6 true) [vB6 true; thunk_val6] rho6_empty.
+Proof.
+  split; [exact counter6_parse|].
+  destruct counter6_hypotheses as (H1 & H2 & H3 & H4 & H5).
+  repeat (split; [assumption|]). split; [exact counter6_1_ref|exact counter6_3_ref].
+Qed.
+(* ... and the model answers #f (two calls), #t (one call), #t (three calls) *)
+Example C01_counter6_run :
+  (transform_expr TRANSFORM_FUEL (vm_empty 8192) (cell_of6 counter6) = Ok (cell_of6 counter6) /\
+   match eval other_builtin 300 (cell_of6 counter6) (vm_empty 8192) with
+   | ROk (Done c) s' => c = CBool false /\ sp s' = 0 /\ bp s' = 0 /\ ep s' = USIZE_MAX
+   | _ => False
+   end) /\
+  (transform_expr TRANSFORM_FUEL (vm_empty 8192) (cell_of6 counter6_1) = Ok (cell_of6 counter6_1) /\
+   match eval other_builtin 300 (cell_of6 counter6_1) (vm_empty 8192) with
+   | ROk (Done c) s' => c = CBool true /\ sp s' = 0 /\ bp s' = 0 /\ ep s' = USIZE_MAX
+   | _ => False
+   end) /\
+  (transform_expr TRANSFORM_FUEL (vm_empty 8192) (cell_of6 counter6_3) = Ok (cell_of6 counter6_3) /\
+   match eval other_builtin 300 (cell_of6 counter6_3) (vm_empty 8192) with
+   | ROk (Done c) s' => c = CBool true /\ sp s' = 0 /\ bp s' = 0 /\ ep s' = USIZE_MAX
+   | _ => False
+   end).
+Proof. split; [exact counter6_run|split; [exact counter6_1_run|exact counter6_3_run]]. Qed.
